@@ -261,6 +261,11 @@ func selectArmBlock(s *ssa.Select, idx int) *ssa.BasicBlock {
 // literal, the same with respect to the point where the literal is made.
 // Stores made inside function literals are always kept.
 func reachingStores(load *ssa.UnOp, a *ssa.Alloc) []*ssa.Store {
+	return reachingStoresAt(load, a)
+}
+
+// reachingStoresAt is reachingStores for any instruction using the cell.
+func reachingStoresAt(load ssa.Instruction, a *ssa.Alloc) []*ssa.Store {
 	all := storesTo(a)
 	if len(all) < 2 {
 		return all
